@@ -86,9 +86,11 @@ theorem skel_registry_handlers :
 /-! ## The property -/
 
 /-- **Claimed identity fields have no effect**: for every world, connection, command and every value of
-`SenderId`, `ReceiverId`, `Token`, the execution is the same as with any other values. -/
-theorem C11_noninterference (v : Variant) (w : World) (f : Nat) (c : Cmd) (s r t : String) :
-    exec v w f { c with snd := s, rcv := r, tok := t } = exec v w f c := rfl
+`SenderId`, `ReceiverId`, `Token`, and whether or not the body additionally carries every identity-like JSON key
+of the server's structs (`sender_client_id`, `client_id`, `created_by`, `user_id`, … — `Gen.c11.identityKeys`,
+regenerated from the struct tags) with any foreign value `e`, the execution is the same. -/
+theorem C11_noninterference (v : Variant) (w : World) (f : Nat) (c : Cmd) (s r t : String) (e : Nat) :
+    exec v w f { c with snd := s, rcv := r, tok := t, extra := e } = exec v w f c := rfl
 
 /-- **A client id in the body never selects who is reached or whose state is touched**, except for the
 two commands whose body names the addressee by design (DNS forward, client-to-client notification; both
@@ -115,7 +117,7 @@ theorem C11_strip (v : Variant) (w : World) (f : Nat) (c : Cmd) : exec v w f c.s
   | true => simp only [if_true]; rfl
   | false =>
     simp only [Bool.false_eq_true, if_false]
-    exact (C11_noninterference v w f { c with g := 0 } "0" "0" "-").trans (C11_body_target_ignored v w f c 0 ha)
+    exact (C11_noninterference v w f { c with g := 0 } "0" "0" "-" 0).trans (C11_body_target_ignored v w f c 0 ha)
 
 /-- Every handler's outcome satisfies the property predicate. -/
 theorem C11_handler_holds (w : World) (f : Nat) (c : Cmd) (h : Handler) (hd : dispatch c.ctype c.resp = some h) :
@@ -204,12 +206,48 @@ theorem C11_reach (w : World) (f : Nat) (c : Cmd) :
   simp only [holds, Bool.and_eq_true, holdsRun, List.all_eq_true, beq_iff_eq] at hm
   exact ⟨hm.2.1.1.2, hm.2.1.2⟩
 
+/-- **The sender a recipient is told is the connection's identity**: every command packet delivered to another
+connection either names no sender or names exactly the client authenticated on the connection the command
+arrived on; a client-to-client notification always names it. -/
+theorem C11_delivered_sender (w : World) (f : Nat) (c : Cmd) :
+    ∀ d ∈ (exec .repaired w f c).dlv, d.conn ≠ f →
+      (d.sender = none ∨ d.sender = some (ident w f)) ∧
+      (d.ctype = c11.cmd.NotifyClient → d.sender = some (ident w f)) := by
+  intro d hd hne
+  have h := (C11_reach w f c).1 d hd
+  simp only [dlvAllowed, Bool.or_eq_true, beq_iff_eq, Bool.and_eq_true, bne_iff_ne, ne_eq] at h
+  rcases h with h | ⟨_, h⟩
+  · exact absurd h hne
+  · split at h
+    · rename_i hct
+      simp only [Bool.and_eq_true, beq_iff_eq] at h
+      refine ⟨Or.inl h.2, ?_⟩
+      intro hn; rw [hn] at hct; exact absurd hct (by decide)
+    · split at h
+      · simp only [beq_iff_eq] at h; exact ⟨Or.inr h, fun _ => h⟩
+      · rename_i hn
+        split at h
+        · simp only [beq_iff_eq] at h; exact ⟨Or.inl h, fun hc => absurd hc hn⟩
+        · cases h
+
+/-- the full observation (runs + payload/record digests) of the model satisfies the predicate the driver applies -/
+theorem C11_main_obs (w : World) (f : Nat) (c : Cmd) :
+    holdsObs w f c ⟨exec .repaired w f c, exec .repaired w f c.strip, [], []⟩ = true := by
+  simp [holdsObs, C11_main]
+
+/-- The identity-like JSON keys any struct of the anchored packages can decode, as regenerated from the struct
+tags; the harness adds exactly these to command bodies (the driver refuses a case built from another list). -/
+theorem C11_identity_keys : c11.identityKeys.map (·.1) =
+    ["activated_by", "by_client_id", "client_id", "conn_id", "connection_id", "created_by", "listen_client_id",
+     "new_node_id", "node_id", "peer_client_id", "platform_user_id", "revoked_by", "sender_client_id", "source_conn_id",
+     "source_node_id", "target_client_id", "target_node_id", "user_id"] := by decide
+
 /-! ## The code as found (before the `fix:` commits): witnesses of the negation -/
 
 def wStd : World :=
   { conns := [⟨.auth, 1001, 0⟩, ⟨.auth, 1002, 0⟩, ⟨.auth, 1003, 0⟩, ⟨.unauth, 0, 0⟩, ⟨.bare, 0, 0⟩],
     maps := [⟨1001, 1002, true, true⟩, ⟨0, 1002, true, true⟩], codes := [], doms := [1001] }
-def cmdOf (ct : Nat) (m g d : Int) : Cmd := ⟨ct, false, "0", "0", "-", false, m, g, 0, d, 0⟩
+def cmdOf (ct : Nat) (m g d : Int) : Cmd := ⟨ct, false, "0", "0", "-", false, m, g, 0, d, 0, 0⟩
 
 /-- traffic report for a mapping from a connection that never authenticated: the counters change -/
 theorem C11_witness_traffic_unauth :
